@@ -194,6 +194,172 @@ def design_models(rep, t):
                   "ReportedIsWritten modulo the input classes F4/F5/F6")
 
 
+
+# ----------------------------------------------------------------------------- Level B: Cli.tla predicts the real run
+
+CLIMODEL_CFG = "SPECIFICATION TSpec\nCONSTANTS NR = 60\nPOSTCONDITION KitPost\nCHECK_DEADLOCK FALSE\n"
+
+
+def model_run(job):
+    """one stylesheet without background variables / translucent literals: abstract it for Cli.tla, take the oracle table from
+    the Python API, run the real command, abstract what it reported and wrote."""
+    seed, settings, gen_kw = job
+    rnd = random.Random(seed)
+    vlib.use_repo()
+    from cm_colors import ColorPair, Color
+    mode, premium, default_bg = settings
+    g = clilib.Gen(rnd, bgvars=False, translucent=False, **gen_kw)
+    nodes = g.sheet()
+    css = clilib.render(nodes, rnd)
+    target = 7.0 if premium else 4.5
+    cids, bids = {}, {}
+
+    def cid(text):
+        try:
+            c = Color(text)
+            key = tuple(c.rgb) if c.is_valid else "invalid:" + str(text)
+        except Exception:
+            key = "invalid:" + str(text)
+        if key not in cids:
+            cids[key] = (len(cids) + 1) if not isinstance(key, str) else (1000 + len(cids))
+        return cids[key]
+
+    def bid(text):
+        c = Color(text)
+        key = tuple(c.rgb)
+        return "b%d" % bids.setdefault(key, len(bids) + 1)
+
+    def expr(e):
+        if e is None:
+            return ["none"]
+        if e[0] == "lit":
+            m = re.fullmatch(r"var\((--[\w-]+)\)", e[1])
+            return ["var", m.group(1)] if m else ["lit", cid(e[1])]
+        if e[0] == "var":
+            return ["var", e[1]]
+        return ["varfb", e[1], cid(e[2])]
+
+    tbl = clilib.var_table(nodes)
+    vdef = {k: expr(v) for k, v in tbl.items()}
+    if not vdef:
+        vdef = {"--none": ["undef"]}
+    flat = [(n, top) for n, _p, top in clilib.walk_rules(nodes)]
+    rules, sels = [], []
+    dbg = default_bg if default_bg is not None else "white"
+    for n, top in flat:
+        text = n["text"] if n["t"] == "rule" else n["color"]
+        bg = n["bg"] if n["t"] == "rule" else None
+        rules.append({"root": bool(n["t"] == "vars"), "col": expr(text), "bg": bid(bg[1]) if bg is not None else bid(dbg)})
+        sels.append(clilib.sel_key(n["sel"]))
+    tab = []          # filled lazily (model_refinement): the model names the entries it needs
+    # the real run
+    work = tempfile.mkdtemp(prefix="verif_clim_")
+    cwd = tempfile.mkdtemp(prefix="verif_cwd_")
+    try:
+        path = os.path.join(work, "m.css")
+        open(path, "w", encoding="utf-8").write(css)
+        args = ["--mode", str(mode)] + (["--premium"] if premium else []) + (["--default-bg", default_bg] if default_bg is not None else [])
+        res = clilib.run_cli(path, args, cwd)
+        outp = os.path.join(work, "m_cm.css")
+        out_css = open(outp, encoding="utf-8").read() if os.path.exists(outp) else ""
+        so = clilib.parse_stdout(res["stdout"])
+        cards = clilib.parse_report(os.path.join(cwd, "cm_colors_report.html")) or []
+        eff = clilib.effective_colours(out_css)
+    finally:
+        shutil.rmtree(work, ignore_errors=True)
+        shutil.rmtree(cwd, ignore_errors=True)
+
+    def cid_known(text):
+        """colour ids of what the command reported / wrote (interned like the input colours; -1 = nothing resolvable)"""
+        if text is None:
+            return -1
+        return cid(text)
+
+    ocards = []
+    for c in cards:
+        if c["selector"] in sels:
+            ocards.append([sels.index(c["selector"]) + 1, cid_known(c["after"])])
+    listed = [sels.index(s_) + 1 for _f, s_ in so["failedSel"] if s_ in sels]
+    effs = []
+    for k, r in enumerate(rules):
+        if r["col"] == ["none"]:
+            effs.append(-2)
+        else:
+            effs.append(cid_known(eff.get(sels[k])) if sels[k] in eff else -2)
+    return {"vdef": vdef, "rules": rules, "tab": tab, "cids": [[list(k) if not isinstance(k, str) else k, v] for k, v in cids.items()],
+            "bids": [[list(k), "b%d" % v] for k, v in bids.items()], "mode": mode, "premium": bool(premium),
+            "obs": {"acc": so["accessible"], "tuned": so["tuned"], "failed": so["failed"], "cards": ocards, "listed": listed, "eff": effs},
+            "css": css[:1500], "args": args}
+
+
+def model_refinement(rep, t, rnd):
+    n = 60 if t == "quick" else 1500
+    jobs = []
+    for k in range(n):
+        settings = (k % 3, bool((k // 3) & 1), rnd.choice([None, "white", "#000000", "#fafafa"]))
+        kw = dict(nrules=rnd.choice([2, 4, 7, 12]), depth=rnd.choice([0, 1, 2]), f_known=rnd.choice([0.0, 0.6, 0.9]), carry=False,
+                  nvars=rnd.choice([1, 2, 4]))
+        jobs.append((rnd.randrange(1 << 30), settings, kw))
+    runs = vlib.pool_map(model_run, jobs, chunksize=2)
+    vlib.use_repo()
+    from cm_colors import ColorPair
+    from cm_colors.core.contrast import calculate_contrast_ratio
+
+    def oracle(run, c, b):
+        """the Python API's answer for colour id c on background id b (ids local to the run)"""
+        cmap = {v: (tuple(k) if isinstance(k, list) else k) for k, v in run["cids"]}
+        bmap = {v: tuple(k) for k, v in run["bids"]}
+        key = cmap.get(c)
+        if key is None or isinstance(key, str):
+            return ["invalid"]
+        p = ColorPair(tuple(key), bmap[b])
+        if calculate_contrast_ratio(p.text.rgb, p.bg.rgb) >= (7.0 if run["premium"] else 4.5):
+            return ["pass"]
+        val, ok = p.make_readable(mode=run["mode"], very_readable=run["premium"])
+        if not ok:
+            return ["fail"]
+        k2 = tuple(val)
+        known = {(tuple(k) if isinstance(k, list) else k): v for k, v in run["cids"]}
+        if k2 not in known:
+            known[k2] = max([v for v in known.values() if v < 1000] + [0]) + 1
+            run["cids"].append([list(k2), known[k2]])
+        return ["tuned", known[k2]]
+
+    pending = list(range(len(runs)))
+    total = dict(distinct=0, generated=0)
+    final_bad = {}
+    for rnd_no in range(12):
+        if not pending:
+            break
+        sub = [runs[j] for j in pending]
+        agg = vlib.validate_traces("TrCliModel", sub, cfg=CLIMODEL_CFG, min_per_shard=10)
+        total["distinct"] += agg["distinct"]
+        total["generated"] += agg["generated"]
+        nxt = []
+        badmap = {b["tid"]: b for b in agg["bad"]}
+        for pos, j in enumerate(pending):
+            b = badmap.get(pos)
+            need = [x for x in (b["incon"] if b else []) if x.startswith("M_")]
+            if need:
+                for x in need:
+                    _m, c, bb = x.split("_", 2)
+                    runs[j]["tab"].append([int(c), bb, oracle(runs[j], int(c), bb)])
+                nxt.append(j)
+            else:
+                final_bad[j] = b
+        pending = nxt
+    agg = {"bad": [dict(b, tid=j) for j, b in final_bad.items() if b], "distinct": total["distinct"], "generated": total["generated"]}
+    rep.extra["refinement_runs_with_incomplete_table"] = len(pending)
+    drift = [b for b in agg["bad"] if any(x.startswith("D_") for x in b["incon"])]
+    rep.drift += len(drift)
+    rep.extra["refinement_runs_checked_against_Cli_tla"] = len(runs)
+    rep.extra["refinement_runs_predicted_exactly"] = len(runs) - len(drift)
+    rep.extra["refinement_cards_predicted"] = sum(len(r["obs"]["cards"]) for r in runs)
+    for b in drift[:4]:
+        r = runs[b["tid"]]
+        print(f"DRIFT module=Cli {b['incon']} args={r['args']} obs={json.dumps(r['obs'])[:300]} sheet={r['css'][:400]!r}")
+
+
 def run(pid):
     t = vlib.tier()
     rnd = random.Random(vlib.seed() * 2038074743 + sum(map(ord, pid)))
@@ -242,6 +408,8 @@ def run(pid):
                           "stdout": infos[tid]["stdout"], "written": infos[tid]["out_css"], "rule_events": [e for e in behs[tid][1:]],
                           "run": {k: v for k, v in behs[tid][0].items() if k not in ("flatIn", "flatOut")},
                           "reproduce": "write `stylesheet` to s.css and run: cm-colors s.css " + " ".join(infos[tid]["args"])})
-    if pid != "C08":
+    if pid == "C08":
+        model_refinement(rep, t, rnd)
+    else:
         rep.known_hits = {}
     return rep.finish()
